@@ -12,7 +12,7 @@ use crate::parser::{
     CsrImm, HasRegisterSets, InstructionProperties, LabelString, LabelStringToken,
     RegisterProperties,
 };
-use crate::parser::{ParserNode, Register};
+use crate::parser::{LoadType, ParserNode, Register};
 use crate::passes::{CfgError, GenerationPass};
 
 use super::memory_location::MemoryLocation;
@@ -271,6 +271,10 @@ fn rule_expand_address_for_load(
 ) {
     if let Some(store_reg) = node.writes_to() {
         if let ParserNode::Load(load) = node {
+            // Only a full-word load yields the whole value of the memory location
+            if *load.inst.get() != LoadType::Lw {
+                return;
+            }
             if let Some(AvailableValue::OriginalRegisterWithScalar(reg, off)) =
                 available_in.get(load.rs1.get())
             {
